@@ -30,6 +30,7 @@ import (
 	quotav1 "k8s.io/apiserver/pkg/quota/v1"
 	"k8s.io/client-go/informers"
 	"k8s.io/klog/v2"
+	"k8s.io/utils/ptr"
 
 	apiext "github.com/koordinator-sh/koordinator/apis/extension"
 	schedulingv1alpha1 "github.com/koordinator-sh/koordinator/apis/scheduling/v1alpha1"
@@ -580,7 +581,8 @@ func buildDeviceResources(device *schedulingv1alpha1.Device) map[schedulingv1alp
 			resources = deviceInfo.Resources
 			klog.V(5).Infof("Find device resource update, nodeName:%v, deviceType:%v, minor:%v, res:%v", device.Name, deviceInfo.Type, deviceInfo.Minor, resources)
 		}
-		nodeDeviceResource[deviceInfo.Type][int(*deviceInfo.Minor)] = resources
+		// minor is optional in the API (the CRD requires only health); like the rest of the package read a missing one as 0
+		nodeDeviceResource[deviceInfo.Type][int(ptr.Deref(deviceInfo.Minor, 0))] = resources
 	}
 	return nodeDeviceResource
 }
